@@ -427,6 +427,11 @@ func (vc *W3CCredential) ToCoreClaim(ctx context.Context, opts *CoreClaimOptions
 		}
 	}
 
+	// work on a copy: the default root position chosen below must not leak
+	// into the caller's options object
+	optsCopy := *opts
+	opts = &optsCopy
+
 	mz, err := vc.Merklize(ctx, opts.MerklizerOpts...)
 	if err != nil {
 		return nil, err
